@@ -820,7 +820,11 @@ class Node:
         """
         if with_clones:
             for c in self.get_clones():  # Excluding self
+                if c._tree is None:
+                    continue  # Already removed as descendant of another clone
                 c.remove(keep_children=keep_children, with_clones=False)
+            if self._tree is None:
+                return  # This node was a descendant of one of its clones
             assert not self.is_clone()
 
         if keep_children:
